@@ -7,122 +7,588 @@ import (
 	"go/token"
 	"os"
 	"path/filepath"
+	"regexp"
 	"sort"
 	"strings"
 )
 
-// P2PAlloc (C24): every `make(` call and every loop bounded by a decoded count in p2pserver/message/types (non-test files,
-// `verif_export*` excluded).  Props/C24.lean pins the REVIEWED lists with `rfl`:
-//   - makeSites        all `make(` calls (today: the two buffers of ReadMessage, none inside a Deserialization);
-//   - countSizedMakes  those whose size/capacity argument mentions a variable assigned from a source read
-//                      (Next…/Read…Uint/Int/Byte) in the same function — must stay empty: such a `make` allocates in
-//                      proportion to an unvalidated count (the model would have to mirror it as `allocEv count`, which
-//                      the allocation theorem C24_alloc cannot absorb);
-//   - countLoops       the `for` loops bounded by such a variable — exactly the loops the model mirrors with `repeatD`.
-// Site identity: `<file>:<function>#<k>: <text>`, k = ordinal of the site inside the function.
+// P2PAlloc (C24): what `types.ReadMessage` and every `Deserialization` method of p2pserver/message/types allocate or iterate
+// in proportion to a run-time value, and which check of that value dominates the site.
+//
+// Sites are located by ROLE, starting from the entry points (ReadMessage, *.Deserialization) and following calls into
+// same-package helpers (the walkDeep idea, but carrying the call context: parameters are replaced by the caller's
+// arguments and the caller's dominating checks are inherited), so it does not matter in which function a statement lives:
+//   - makes       every `make(T, n[, c])` reachable from an entry point; a size without any local variable is `const`,
+//                 otherwise the size is printed with its variables renamed by role ($c = a value read from the source with
+//                 Next…/Read…Uint/Int/Byte, $v = any other local, $src = the source) followed by the checks of those
+//                 variables that dominate the allocation;
+//   - countSized  the subset whose size mentions a $c (must stay empty: the allocation theorem C24_alloc has no rule for it);
+//   - countLoops  every `for` whose condition mentions a $c: comparison and bound, the reader the count came from, and
+//                 the dominating checks of the count.
+// "Dominating check" = a condition that leaves the function (or makes the caller leave) before the site is reached:
+// early-exit ifs, else branches, switch cases (guardsOf), a merged `a || b` exit counts as both `a` and `b`; an error
+// returned by a same-package helper and tested by the caller (`if err = check(h); err != nil { return }`) contributes the
+// helper's own error conditions with parameters replaced by the arguments. Expressions are compared after inlineLocals
+// and after mapping helper parameters to the caller's arguments, so neither the names of locals nor the function a
+// statement lives in matter. Anything not understood is printed as it is (and then differs from the pinned facts).
 func init() { Register("P2PAlloc", genP2PAlloc) }
 
+var reSourceRead = regexp.MustCompile(`^(Next|Read)(Var)?(Uint|Int|Byte)[A-Za-z0-9]*$`)
+
+var goBuiltins = map[string]bool{"int": true, "int32": true, "int64": true, "uint": true, "uint8": true, "uint16": true, "uint32": true,
+	"uint64": true, "len": true, "cap": true, "byte": true, "nil": true, "true": true, "false": true, "string": true, "make": true}
+
+type p2pCtx struct {
+	fset    *token.FileSet
+	funcs   map[string]*ast.FuncDecl
+	imports map[string]bool
+	ambig   map[string]bool // method names declared on more than one receiver type (calleeOf resolves by bare name only)
+}
+
+// helperOf: the same-package function a call certainly refers to (never an entry point: those are analysed on their own,
+// and `msg.Deserialization(..)` is a dynamic dispatch; never a method name that several types declare)
+func (c *p2pCtx) helperOf(call *ast.CallExpr) *ast.FuncDecl {
+	name := ""
+	switch f := call.Fun.(type) {
+	case *ast.Ident:
+		name = f.Name
+	case *ast.SelectorExpr:
+		name = f.Sel.Name
+		if id, ok := f.X.(*ast.Ident); ok && c.imports[id.Name] {
+			return nil // pkg.Func of another package
+		}
+	}
+	if name == "" || name == "Deserialization" || name == "ReadMessage" || c.ambig[name] {
+		return nil
+	}
+	return calleeOf(c.funcs, call)
+}
+
+// frame: one function on the call chain from the entry point
+type p2pFrame struct {
+	fn      *ast.FuncDecl
+	defs    *defTable
+	subst   map[string]ast.Expr // parameter name -> argument, already in the entry function's terms
+	tainted map[string]string   // name (in entry terms) -> reader method it was read with
+	sources map[string]bool     // names of ZeroCopySource values
+	checkEx []ast.Expr          // dominating checks inherited from the callers (entry terms, not yet renamed)
+}
+
+func substIdents(e ast.Expr, m map[string]ast.Expr) ast.Expr {
+	if e == nil || len(m) == 0 {
+		return e
+	}
+	switch x := e.(type) {
+	case *ast.Ident:
+		if r, ok := m[x.Name]; ok {
+			return r
+		}
+		return x
+	case *ast.ParenExpr:
+		return &ast.ParenExpr{X: substIdents(x.X, m)}
+	case *ast.BinaryExpr:
+		return &ast.BinaryExpr{X: substIdents(x.X, m), Op: x.Op, Y: substIdents(x.Y, m)}
+	case *ast.UnaryExpr:
+		return &ast.UnaryExpr{Op: x.Op, X: substIdents(x.X, m)}
+	case *ast.StarExpr:
+		return &ast.StarExpr{X: substIdents(x.X, m)}
+	case *ast.CallExpr:
+		args := make([]ast.Expr, len(x.Args))
+		for i, a := range x.Args {
+			args[i] = substIdents(a, m)
+		}
+		fun := x.Fun
+		if se, ok := fun.(*ast.SelectorExpr); ok {
+			fun = &ast.SelectorExpr{X: substIdents(se.X, m), Sel: se.Sel}
+		}
+		return &ast.CallExpr{Fun: fun, Args: args}
+	case *ast.SelectorExpr:
+		return &ast.SelectorExpr{X: substIdents(x.X, m), Sel: x.Sel}
+	case *ast.IndexExpr:
+		return &ast.IndexExpr{X: substIdents(x.X, m), Index: substIdents(x.Index, m)}
+	case *ast.SliceExpr:
+		return &ast.SliceExpr{X: substIdents(x.X, m), Low: substIdents(x.Low, m), High: substIdents(x.High, m), Max: substIdents(x.Max, m)}
+	}
+	return e
+}
+
+// toEntry: an expression of frame f, with simply-defined locals inlined and parameters replaced by the caller's arguments
+func (f *p2pFrame) toEntry(e ast.Expr) ast.Expr {
+	return substIdents(inlineLocals(e, f.defs), f.subst)
+}
+
+// localIdents: identifiers that denote run-time values (not packages, builtins, field names or called function names)
+func (c *p2pCtx) localIdents(e ast.Expr) []string {
+	var out []string
+	seen := map[string]bool{}
+	var rec func(n ast.Expr)
+	rec = func(n ast.Expr) {
+		switch x := n.(type) {
+		case nil:
+		case *ast.Ident:
+			if !goBuiltins[x.Name] && !c.imports[x.Name] && !seen[x.Name] {
+				seen[x.Name] = true
+				out = append(out, x.Name)
+			}
+		case *ast.ParenExpr:
+			rec(x.X)
+		case *ast.BinaryExpr:
+			rec(x.X)
+			rec(x.Y)
+		case *ast.UnaryExpr:
+			rec(x.X)
+		case *ast.StarExpr:
+			rec(x.X)
+		case *ast.SelectorExpr:
+			if id, ok := x.X.(*ast.Ident); ok && c.imports[id.Name] {
+				return // pkg.Name
+			}
+			rec(x.X)
+		case *ast.CallExpr:
+			switch fx := x.Fun.(type) {
+			case *ast.SelectorExpr:
+				rec(fx.X)
+			case *ast.Ident: // conversion or builtin or package-level function: not a value
+			default:
+				rec(x.Fun)
+			}
+			for _, a := range x.Args {
+				rec(a)
+			}
+		case *ast.IndexExpr:
+			rec(x.X)
+			rec(x.Index)
+		case *ast.SliceExpr:
+			rec(x.X)
+			rec(x.Low)
+			rec(x.High)
+		}
+	}
+	rec(e)
+	return out
+}
+
+// rename the variables of a site by role and print
+func (c *p2pCtx) canon(e ast.Expr, roles map[string]string) string {
+	m := map[string]ast.Expr{}
+	for k, v := range roles {
+		m[k] = ast.NewIdent(v)
+	}
+	return flat(c.fset, stripParens(substIdents(e, m)))
+}
+
+func splitOp(e ast.Expr, op token.Token) []ast.Expr {
+	e = stripParens(e)
+	if b, ok := e.(*ast.BinaryExpr); ok && b.Op == op {
+		return append(splitOp(b.X, op), splitOp(b.Y, op)...)
+	}
+	return []ast.Expr{e}
+}
+
+// errorExits: the conditions under which a same-package helper returns a non-nil last result, read off the leading chain of
+// `if c { return …, err }` statements of its body (the chain stops at the first statement of any other shape).
+func errorExits(fn *ast.FuncDecl) []ast.Expr {
+	var out []ast.Expr
+	for _, s := range fn.Body.List {
+		is, ok := s.(*ast.IfStmt)
+		if !ok {
+			if _, isDecl := s.(*ast.DeclStmt); isDecl {
+				continue
+			}
+			if as, isAs := s.(*ast.AssignStmt); isAs && as.Tok == token.DEFINE {
+				continue // a definition (inlined by the caller of errorExits)
+			}
+			break
+		}
+		if is.Else != nil || is.Init != nil || len(is.Body.List) == 0 {
+			break
+		}
+		ret, ok := is.Body.List[len(is.Body.List)-1].(*ast.ReturnStmt)
+		if !ok || len(ret.Results) == 0 {
+			break
+		}
+		if id, ok := ret.Results[len(ret.Results)-1].(*ast.Ident); ok && id.Name == "nil" {
+			break // an early success: what follows is not implied by success
+		}
+		out = append(out, is.Cond)
+	}
+	return out
+}
+
+func paramNames(fn *ast.FuncDecl) []string {
+	var out []string
+	for _, f := range fn.Type.Params.List {
+		for _, n := range f.Names {
+			out = append(out, n.Name)
+		}
+	}
+	return out
+}
+
+// callOfErr: the same-package call whose error result the condition `x != nil` tests, if that can be told:
+// `if x = f(..); x != nil`, `x := f(..)` (single definition), or `x = f(..)` / `.., x = f(..)` as the statement right before.
+func (c *p2pCtx) callOfErr(f *p2pFrame, cnd ast.Expr) *ast.CallExpr {
+	b, ok := stripParens(cnd).(*ast.BinaryExpr)
+	if !ok || b.Op != token.NEQ {
+		return nil
+	}
+	if id, ok := b.Y.(*ast.Ident); !ok || id.Name != "nil" {
+		return nil
+	}
+	switch x := stripParens(b.X).(type) {
+	case *ast.CallExpr:
+		return x
+	case *ast.Ident:
+		if r, ok := stripParens(inlineLocals(x, f.defs)).(*ast.CallExpr); ok {
+			return r
+		}
+		var found *ast.CallExpr
+		assignsErr := func(s ast.Stmt) *ast.CallExpr {
+			as, ok := s.(*ast.AssignStmt)
+			if !ok || len(as.Rhs) != 1 {
+				return nil
+			}
+			last, ok := as.Lhs[len(as.Lhs)-1].(*ast.Ident)
+			if !ok || last.Name != x.Name {
+				return nil
+			}
+			ce, _ := as.Rhs[0].(*ast.CallExpr)
+			return ce
+		}
+		ast.Inspect(f.fn.Body, func(n ast.Node) bool {
+			var list []ast.Stmt
+			switch bl := n.(type) {
+			case *ast.BlockStmt:
+				list = bl.List
+			case *ast.CaseClause:
+				list = bl.Body
+			default:
+				return true
+			}
+			for i, s := range list {
+				is, ok := s.(*ast.IfStmt)
+				if !ok || is.Cond.Pos() != cnd.Pos() {
+					continue
+				}
+				if is.Init != nil {
+					found = assignsErr(is.Init)
+				} else if i > 0 {
+					found = assignsErr(list[i-1])
+				}
+			}
+			return true
+		})
+		return found
+	}
+	return nil
+}
+
+// the checks that dominate position p inside frame f: (printable expression in entry terms)
+func (c *p2pCtx) checksAt(f *p2pFrame, p, end token.Pos) []ast.Expr {
+	var best []cond
+	bestLen := token.Pos(-1)
+	found := false
+	guardsOf(f.fn.Body.List, nil, func(s ast.Stmt, gs []cond) {
+		// the visited statement that contains the site, or (for a loop) the first visited statement inside it
+		inside := s.Pos() <= p && p < s.End()
+		within := p <= s.Pos() && s.End() <= end
+		if !inside && !within {
+			return
+		}
+		l := s.End() - s.Pos()
+		if !found || (inside && l < bestLen) {
+			if found && !inside {
+				return
+			}
+			best, bestLen, found = gs, l, true
+		}
+	})
+	var out []ast.Expr
+	for _, g := range best {
+		if g.e.Pos().IsValid() && g.e.Pos() >= p {
+			continue // a condition inside the site itself (loop body)
+		}
+		if g.pos {
+			for _, a := range splitOp(g.e, token.LAND) {
+				out = append(out, &ast.CallExpr{Fun: ast.NewIdent("only-if"), Args: []ast.Expr{f.toEntry(a)}})
+			}
+			continue
+		}
+		for _, a := range splitOp(g.e, token.LOR) {
+			if ce := c.callOfErr(f, a); ce != nil {
+				if g := c.helperOf(ce); g != nil {
+					gd := singleDefs(g)
+					m := map[string]ast.Expr{}
+					for i, pn := range paramNames(g) {
+						if i < len(ce.Args) {
+							m[pn] = f.toEntry(ce.Args[i])
+						}
+					}
+					for _, ex := range errorExits(g) {
+						for _, d := range splitOp(ex, token.LOR) {
+							out = append(out, substIdents(inlineLocals(d, gd), m))
+						}
+					}
+					continue
+				}
+			}
+			out = append(out, f.toEntry(a))
+		}
+	}
+	return out
+}
+
+func (c *p2pCtx) taintOf(fn *ast.FuncDecl) (map[string]string, map[string]bool) {
+	tainted, sources := map[string]string{}, map[string]bool{}
+	ast.Inspect(fn.Body, func(n ast.Node) bool {
+		switch x := n.(type) {
+		case *ast.CallExpr:
+			if sel, ok := x.Fun.(*ast.SelectorExpr); ok && (strings.HasPrefix(sel.Sel.Name, "Next") || strings.HasPrefix(sel.Sel.Name, "Read") || sel.Sel.Name == "Len") {
+				if id, ok := sel.X.(*ast.Ident); ok && !c.imports[id.Name] {
+					sources[id.Name] = true
+				}
+			}
+		case *ast.AssignStmt:
+			if len(x.Rhs) != 1 {
+				return true
+			}
+			call, ok := x.Rhs[0].(*ast.CallExpr)
+			if !ok {
+				return true
+			}
+			sel, ok := call.Fun.(*ast.SelectorExpr)
+			if !ok || !reSourceRead.MatchString(sel.Sel.Name) {
+				return true
+			}
+			if id, ok := x.Lhs[0].(*ast.Ident); ok && id.Name != "_" {
+				tainted[id.Name] = sel.Sel.Name
+			}
+		}
+		return true
+	})
+	return tainted, sources
+}
+
+type p2pOut struct{ makes, sized, loops []string }
+
+func (c *p2pCtx) analyse(entry string, f *p2pFrame, depth int, seen map[*ast.FuncDecl]bool, out *p2pOut) {
+	if seen[f.fn] {
+		return
+	}
+	seen[f.fn] = true
+	own, srcs := c.taintOf(f.fn)
+	for k, v := range own {
+		f.tainted[k] = v
+	}
+	for k := range srcs {
+		f.sources[k] = true
+	}
+	describe := func(site ast.Expr, checks []ast.Expr) (text []string, hasCount bool, readers []string) {
+		roles := map[string]string{}
+		nv := 0
+		for _, id := range c.localIdents(site) {
+			switch {
+			case f.tainted[id] != "":
+				roles[id] = "$c"
+				hasCount = true
+				readers = append(readers, f.tainted[id])
+			case f.sources[id]:
+				roles[id] = "$src"
+			default:
+				roles[id] = "$v"
+				if nv > 0 {
+					roles[id] = fmt.Sprintf("$v%d", nv)
+				}
+				nv++
+			}
+		}
+		for k := range f.sources {
+			if _, ok := roles[k]; !ok {
+				roles[k] = "$src"
+			}
+		}
+		var cs []string
+		for _, ch := range checks {
+			rel := false
+			for _, id := range c.localIdents(ch) {
+				if r, ok := roles[id]; ok && r != "$src" {
+					rel = true
+				}
+			}
+			if rel {
+				cs = append(cs, c.canon(ch, roles))
+			}
+		}
+		return append([]string{c.canon(site, roles)}, cs...), hasCount, readers
+	}
+	ast.Inspect(f.fn.Body, func(n ast.Node) bool {
+		switch x := n.(type) {
+		case *ast.CallExpr:
+			if id, ok := x.Fun.(*ast.Ident); ok && id.Name == "make" && len(x.Args) >= 2 {
+				checks := append(append([]ast.Expr{}, f.checkEx...), c.checksAt(f, x.Pos(), x.End())...)
+				var sizes []string
+				count := false
+				var allChecks []string
+				for _, a := range x.Args[1:] {
+					e := f.toEntry(a)
+					if len(c.localIdents(e)) == 0 {
+						sizes = append(sizes, "const")
+						continue
+					}
+					t, hc, _ := describe(e, checks)
+					sizes = append(sizes, t[0])
+					allChecks = append(allChecks, t[1:]...)
+					count = count || hc
+				}
+				line := fmt.Sprintf("%s: make(%s,%s)", entry, flat(c.fset, x.Args[0]), strings.Join(sizes, ","))
+				if len(allChecks) > 0 {
+					line += " checked " + strings.Join(allChecks, " ; ")
+				} else if strings.Join(sizes, "") != strings.Repeat("const", len(sizes)) {
+					line += " unchecked"
+				}
+				out.makes = append(out.makes, line)
+				if count {
+					out.sized = append(out.sized, line)
+				}
+				return true
+			}
+			if g := c.helperOf(x); g != nil && depth > 0 && g != f.fn {
+				m := map[string]ast.Expr{}
+				nf := &p2pFrame{fn: g, defs: singleDefs(g), subst: m, tainted: map[string]string{}, sources: map[string]bool{}}
+				for i, pn := range paramNames(g) {
+					if i < len(x.Args) {
+						a := f.toEntry(x.Args[i])
+						m[pn] = a
+					}
+				}
+				for k, v := range f.tainted {
+					nf.tainted[k] = v
+				}
+				for k := range f.sources {
+					nf.sources[k] = true
+				}
+				nf.checkEx = append(append([]ast.Expr{}, f.checkEx...), c.checksAt(f, x.Pos(), x.End())...)
+				c.analyse(entry, nf, depth-1, seen, out)
+			}
+		case *ast.ForStmt:
+			if x.Cond == nil {
+				return true
+			}
+			cnd := f.toEntry(x.Cond)
+			b, ok := stripParens(cnd).(*ast.BinaryExpr)
+			if !ok {
+				return true
+			}
+			var bound ast.Expr
+			op := b.Op.String()
+			for _, side := range []ast.Expr{b.Y, b.X} {
+				for _, id := range c.localIdents(side) {
+					if f.tainted[id] != "" {
+						bound = side
+					}
+				}
+				if bound != nil {
+					break
+				}
+			}
+			if bound == nil {
+				return true
+			}
+			checks := append(append([]ast.Expr{}, f.checkEx...), c.checksAt(f, x.Pos(), x.End())...)
+			t, _, readers := describe(bound, checks)
+			line := fmt.Sprintf("%s: for %s%s $c=%s", entry, op, t[0], strings.Join(readers, ","))
+			if len(t) > 1 {
+				line += " checked " + strings.Join(t[1:], " ; ")
+			} else {
+				line += " unchecked"
+			}
+			out.loops = append(out.loops, line)
+		}
+		return true
+	})
+}
+
 func genP2PAlloc(repo string) (string, error) {
-	dir := filepath.Join(repo, "p2pserver/message/types")
-	ents, err := os.ReadDir(dir)
+	dir := "p2pserver/message/types"
+	fset, funcs, err := pkgFuncs(repo, dir)
 	if err != nil {
 		return "", err
 	}
-	var files []string
+	c := &p2pCtx{fset: fset, funcs: funcs, imports: map[string]bool{}, ambig: map[string]bool{}}
+	perName := map[string]int{}
+	for k := range funcs {
+		if i := strings.Index(k, "."); i >= 0 {
+			perName[k[i+1:]]++
+		}
+	}
+	for k, n := range perName {
+		if n > 1 {
+			c.ambig[k] = true
+		}
+	}
+	ents, err := os.ReadDir(filepath.Join(repo, dir))
+	if err != nil {
+		return "", err
+	}
+	nfiles := 0
 	for _, e := range ents {
 		n := e.Name()
-		if e.IsDir() || !strings.HasSuffix(n, ".go") || strings.HasSuffix(n, "_test.go") || strings.HasPrefix(n, "verif_export") {
+		if e.IsDir() || !strings.HasSuffix(n, ".go") || strings.HasSuffix(n, "_test.go") {
 			continue
 		}
-		files = append(files, n)
-	}
-	sort.Strings(files)
-	if len(files) < 15 {
-		return "", fmt.Errorf("only %d Go files in p2pserver/message/types: wrong repository root?", len(files))
-	}
-	var makes, sized, loops []string
-	sawReadMessage := false
-	for _, name := range files {
-		fset := token.NewFileSet()
-		f, err := parser.ParseFile(fset, filepath.Join(dir, name), nil, 0)
+		nfiles++
+		f, err := parser.ParseFile(token.NewFileSet(), filepath.Join(repo, dir, n), nil, parser.ImportsOnly)
 		if err != nil {
-			return "", fmt.Errorf("%s: %v", name, err)
+			return "", err
 		}
-		for _, d := range f.Decls {
-			fd, ok := d.(*ast.FuncDecl)
-			if !ok || fd.Body == nil {
-				continue
+		for _, im := range f.Imports {
+			p := strings.Trim(im.Path.Value, `"`)
+			name := p[strings.LastIndex(p, "/")+1:]
+			if im.Name != nil {
+				name = im.Name.Name
 			}
-			fn := funcName(fd)
-			if fn == "ReadMessage" {
-				sawReadMessage = true
-			}
-			tainted := map[string]bool{}
-			ast.Inspect(fd.Body, func(n ast.Node) bool {
-				as, ok := n.(*ast.AssignStmt)
-				if !ok || len(as.Rhs) != 1 {
-					return true
-				}
-				call, ok := as.Rhs[0].(*ast.CallExpr)
-				if !ok {
-					return true
-				}
-				sel, ok := call.Fun.(*ast.SelectorExpr)
-				if !ok || !reCountDecoder.MatchString(sel.Sel.Name) {
-					return true
-				}
-				switch l := as.Lhs[0].(type) {
-				case *ast.Ident:
-					if l.Name != "_" {
-						tainted[l.Name] = true
-					}
-				case *ast.SelectorExpr:
-					tainted[l.Sel.Name] = true
-				}
-				return true
-			})
-			km, kl := 0, 0
-			ast.Inspect(fd.Body, func(n ast.Node) bool {
-				switch x := n.(type) {
-				case *ast.CallExpr:
-					if id, ok := x.Fun.(*ast.Ident); ok && id.Name == "make" {
-						site := leanStr(fmt.Sprintf("%s:%s#%d: %s", name, fn, km, exprString(fset, x)))
-						km++
-						makes = append(makes, site)
-						for _, a := range x.Args[1:] {
-							if len(tainted) > 0 && mentions(a, tainted) {
-								sized = append(sized, site)
-								break
-							}
-						}
-					}
-				case *ast.ForStmt:
-					if x.Cond != nil && len(tainted) > 0 && mentions(x.Cond, tainted) {
-						loops = append(loops, leanStr(fmt.Sprintf("%s:%s#%d: for %s", name, fn, kl, exprString(fset, x.Cond))))
-						kl++
-					}
-				}
-				return true
-			})
+			c.imports[name] = true
 		}
 	}
-	if !sawReadMessage {
-		return "", fmt.Errorf("p2pserver/message/types: function ReadMessage not found: extraction broken")
+	if nfiles < 15 {
+		return "", fmt.Errorf("only %d Go files in %s: wrong repository root?", nfiles, dir)
+	}
+	var entries []string
+	for k := range funcs {
+		if k == "ReadMessage" || strings.HasSuffix(k, ".Deserialization") {
+			entries = append(entries, k)
+		}
+	}
+	sort.Strings(entries)
+	if funcs["ReadMessage"] == nil {
+		return "", fmt.Errorf("%s: function ReadMessage not found", dir)
+	}
+	if len(entries) < 15 {
+		return "", fmt.Errorf("%s: only %d Deserialization methods found: extraction broken", dir, len(entries)-1)
+	}
+	out := &p2pOut{}
+	for _, e := range entries {
+		fn := funcs[e]
+		c.analyse(e, &p2pFrame{fn: fn, defs: singleDefs(fn), tainted: map[string]string{}, sources: map[string]bool{}}, 3, map[*ast.FuncDecl]bool{}, out)
 	}
 	list := func(xs []string) string {
 		if len(xs) == 0 {
 			return "[]"
 		}
-		return "[\n  " + strings.Join(xs, ",\n  ") + "]"
+		var q []string
+		for _, x := range xs {
+			q = append(q, `"`+strings.NewReplacer(`\`, `/`, `"`, `'`).Replace(x)+`"`)
+		}
+		return "[\n  " + strings.Join(q, ",\n  ") + "]"
 	}
 	var sb strings.Builder
 	sb.WriteString("namespace OntVerif.Gen.P2PAlloc\n\n")
-	fmt.Fprintf(&sb, "/-- every `make(` call in p2pserver/message/types (%d non-test files scanned) -/\n", len(files))
-	sb.WriteString("def makeSites : List String := " + list(makes) + "\n\n")
-	sb.WriteString("/-- the `make(` calls whose size or capacity mentions a variable read from the source in the same function -/\n")
-	sb.WriteString("def countSizedMakes : List String := " + list(sized) + "\n\n")
-	sb.WriteString("/-- the `for` loops bounded by a variable read from the source in the same function -/\n")
-	sb.WriteString("def countLoops : List String := " + list(loops) + "\n\n")
+	fmt.Fprintf(&sb, "/-- every `make` reachable from ReadMessage or a Deserialization method of %s (%d entry points, helpers followed):\nsize by role, and the dominating checks of the size -/\n", dir, len(entries))
+	sb.WriteString("def makeSites : List String := " + list(out.makes) + "\n\n")
+	sb.WriteString("/-- the `make` calls whose size or capacity is a value read from the source -/\n")
+	sb.WriteString("def countSizedMakes : List String := " + list(out.sized) + "\n\n")
+	sb.WriteString("/-- the `for` loops bounded by a value read from the source: comparison, bound, reader, dominating checks of the count -/\n")
+	sb.WriteString("def countLoops : List String := " + list(out.loops) + "\n\n")
 	sb.WriteString("end OntVerif.Gen.P2PAlloc\n")
 	return sb.String(), nil
 }
